@@ -99,6 +99,21 @@ def gen(repo: Path):
         raise ValueError("retry errno set of atomic_replace not found")
     retries_perm = any(isinstance(h.type, ast.Name) and h.type.id == "PermissionError"
                        for n in ast.walk(ar) if isinstance(n, ast.Try) for h in n.handlers)
+    # the clean-up `tmp_path.unlink()` of atomic_replace is guarded by its `unlink_on_failure` flag …
+    guarded = False
+    for n in ast.walk(ar):
+        if isinstance(n, ast.If) and any(isinstance(x, ast.Name) and x.id == "unlink_on_failure" for x in ast.walk(n.test)):
+            if any(isinstance(c, ast.Call) and isinstance(c.func, ast.Attribute) and c.func.attr == "unlink" for c in ast.walk(n)):
+                guarded = True
+    unguarded_unlink = [c for c in ast.walk(ar) if isinstance(c, ast.Call) and isinstance(c.func, ast.Attribute)
+                        and c.func.attr == "unlink"]
+    guarded = guarded and len(unguarded_unlink) == 1
+    # … and every atomic_replace call of rotate_one passes unlink_on_failure=False
+    rl = ast.parse((repo / "clematis/scripts/rotate_logs.py").read_text())
+    r1 = _func(rl, "rotate_one")
+    calls = [c for c in ast.walk(r1) if isinstance(c, ast.Call) and isinstance(c.func, ast.Name) and c.func.id == "atomic_replace"]
+    keeps = bool(calls) and all(any(k.arg == "unlink_on_failure" and isinstance(k.value, ast.Constant) and k.value.value is False
+                                    for k in c.keywords) for c in calls)
     items = sorted(stage_ord.items(), key=lambda kv: (kv[1], kv[0]))
     src = f"""/- GENERATED by harness/tables/logs.py from clematis/engine/util/io_logging.py and clematis/io/log.py — do not edit. -/
 namespace Clem.Gen.Logs
@@ -141,10 +156,17 @@ def replaceRetryErrnos : List (List Nat) :=
 /-- `atomic_replace` also retries `PermissionError`. -/
 def replaceRetriesPermissionError : Bool := {"true" if retries_perm else "false"}
 
+/-- the clean-up `unlink` of `atomic_replace` is under `if unlink_on_failure …`. -/
+def replaceUnlinkGuardedByFlag : Bool := {"true" if guarded else "false"}
+
+/-- every `atomic_replace(...)` call in `rotate_one` passes `unlink_on_failure=False`. -/
+def rotateKeepsSourceOnFailure : Bool := {"true" if keeps else "false"}
+
 end Clem.Gen.Logs
 """
     summary = {"Logs.lean": {"stage_ord": len(items), "identity_io": ident_io, "identity_log": ident_log,
                              "name_literals": name_lits, "written": sorted(written), "popped": sorted(popped),
                              "drain_key": comps, "default_ord": default_ord,
-                             "replace_retry_errnos": retry, "retries_permission_error": retries_perm}}
+                             "replace_retry_errnos": retry, "retries_permission_error": retries_perm,
+                             "unlink_guarded": guarded, "rotate_keeps_source": keeps}}
     return {"Logs.lean": src}, summary
